@@ -32,6 +32,99 @@ def _scalar_alts(v, cond=None):
     return [(cond, "other", v)]
 
 
+def replay_memory_scope(ctx):
+    """aggregates over two event types held in memory, then after FLUSH, on the real engine"""
+    import json
+    import shutil
+    import tempfile
+    from vlib import history
+    binary = native_binary(ctx.log)
+    if binary is None:
+        return False, "native replay program did not build"
+    root = tempfile.mkdtemp(prefix="verif-hist-")
+    try:
+        history.write_config(root, capacity=10, shards=1)
+        qs = "QUERY a COUNT; QUERY a FOR c1 COUNT; QUERY a FOR c1 TOTAL n"
+        script = ('DEFINE a FIELDS { "n": "int" }; DEFINE b FIELDS { "n": "int" }; STORE a FOR c1 PAYLOAD {"n": 1}; '
+                  'STORE a FOR c2 PAYLOAD {"n": 2}; STORE b FOR c1 PAYLOAD {"n": 10}; !sleep 200; ' + qs +
+                  '; FLUSH; !wait; !sleep 400; ' + qs)
+        rc, out, err = history.run_lifetime(binary, root, script)
+        vals = []
+        for _i, o in out:
+            if isinstance(o, str) and '"type":"end"' in o:
+                for line in o.splitlines():
+                    try:
+                        j = json.loads(line)
+                    except ValueError:
+                        continue
+                    if j.get("type") == "batch":
+                        vals.append(j["rows"][0][-1])
+        if len(vals) < 6:
+            return False, f"aggregate answers not read ({vals})"
+        text = (f"events a(c1, n=1), a(c2, n=2), b(c1, n=10). In memory: QUERY a COUNT = {vals[0]} (2 events of type a), QUERY a FOR c1 COUNT = "
+                f"{vals[1]} (1 selected), QUERY a FOR c1 TOTAL n = {vals[2]} (sum 1). After FLUSH: {vals[3]}, {vals[4]}, {vals[5]}")
+        return tuple(vals[:3]) != (2, 1, 1) or tuple(vals[3:6]) != (2, 1, 1), text
+    finally:
+        shutil.rmtree(root, ignore_errors=True)
+
+
+def memory_scope(ctx):
+    """the evaluator the memory tier builds must keep the query's event type / context / time conditions"""
+    out = []
+    r = oblig.Result("B-4", "the row filter built from a query plan (used by the memtable scan and by the segment runners) always contains "
+                            "the query's own scope conditions - event type, FOR <context>, SINCE - also for aggregate queries: without "
+                            "them COUNT / TOTAL / ... fold over events the query did not select (a memtable holds every event type and "
+                            "context of the shard, a zone every context)")
+    r.functions = []
+    r.bounds = "every path of the builder function(s) the memtable sources call"
+    out.append(r)
+    q = ctx.q
+    callers = [("operators-memtable_source-{impl#2}-run-{closure#0}.", "MemTableSource::run"),
+               ("read-memtable_query-{impl#0}-", "MemTableQueryRunner")]
+    builders = set()
+    for needle, label in callers:
+        for f in ctx.find(needle):
+            try:
+                txt = open(f).read()
+            except OSError:
+                continue
+            for m in re.finditer(r"ConditionEvaluatorBuilder::(\w+)\(", txt):
+                if m.group(1) not in ("new", "into_evaluator"):
+                    builders.add(m.group(1))
+    if not builders:
+        r.status = "inconclusive"
+        r.notes.append("the memtable sources do not build a ConditionEvaluator through ConditionEvaluatorBuilder")
+        return out
+    r.nontrivial = True
+    for name in sorted(builders):
+        b = Builder(ctx, f"filter-condition_evaluator_builder-{{impl#0}}-{name}.", f"ConditionEvaluatorBuilder::{name}", {})
+        r.functions.append(f"ConditionEvaluatorBuilder::{name}")
+        if b.E is None:
+            r.status = "inconclusive"
+            r.notes.append(b.err)
+            return out
+        E = b.E
+        done = oblig.events(E, r"ConditionEvaluatorBuilder::into_evaluator$")
+        special = oblig.events(E, r"ConditionEvaluatorBuilder::add_special_fields$")
+        if not done:
+            continue
+        sp = z3.Or([e.reach for e in special]) if special else z3.BoolVal(False)
+        for d in done:
+            res, model = q.check(d.reach, z3.Not(sp), domain=E.domain)
+            r.queries += 1
+            if res == z3.sat:
+                ok, text = replay_memory_scope(ctx)
+                r.witness = {"what": f"ConditionEvaluatorBuilder::{name}, which the memtable scan uses, finishes without add_special_fields on some path "
+                                     "(aggregation plans): aggregates then fold over events of other contexts / times, and in memory of other event types - " + text,
+                             "span": f"{d.span[0]}:{d.span[1]}" if d.span else None, "call": f"ConditionEvaluatorBuilder::{name}",
+                             "path": E.path_of_model(model)[-8:], "model": {}, "native": text}
+                r.status = "violated" if ok else "inconclusive"
+                if not ok:
+                    r.notes.append("the scope conditions can be skipped but the end-to-end replay shows correct aggregates: " + text)
+                return out
+    return out
+
+
 def merged_min_max(ctx):
     """the coordinator's finalisation of a merged MIN / MAX state prefers the number, like Min / Max::finalize"""
     needle = "merge-aggregate_stream-{impl#0}-agg_state_to_scalar."
@@ -188,6 +281,7 @@ def obligations(ctx):
                 break
     out += simd_tail(ctx)
     out += merged_min_max(ctx)
+    out += memory_scope(ctx)
     return out
 
 
